@@ -58,6 +58,8 @@ def _dfas(basis):
 
 def sem_accepts(basis, mword):
     """semantic language: the pin sequence encoded by mword contains a basis element"""
+    if any(len(b) == 0 for b in basis):
+        return True  # every permutation (also the one of the empty pin sequence) contains the empty permutation
     if len(mword) < 2:
         return False
     perm = pin.decode(pin.m_to_sp(mword))
@@ -293,9 +295,12 @@ def _run_basis(acc, basis, L):
 
 def shard_exhaustive(acc, shard, nshards, max_len, L):
     os.chdir(engine.fresh_dir("dfa"))
-    for i, p in enumerate(ref.perms_upto(max_len, 1)):
+    singles = [[list(p)] for p in ref.perms_upto(max_len, 0)]
+    # bases containing the empty permutation, alone and next to others
+    singles += [[[], [1, 3, 0, 2]], [[0, 1], []], [[], []]]
+    for i, basis in enumerate(singles):
         if i % nshards == shard:
-            _run_basis(acc, [list(p)], L)
+            _run_basis(acc, basis, L if basis != [[]] else min(L, 7))
 
 
 def pin_perms(n):
